@@ -795,6 +795,8 @@ def run(tier, only=None):
     q5(rep)
     q6(rep)
     q7(rep)
+    from . import selfcompare
+    selfcompare.report(rep, "Q9", [u for u in common.compiler_units() if u.startswith("of_") or u in ("usedef.c", "flog.c", "dflow.c", "optfoam.c", "inlutil.c", "loops.c", "foam.c")], what="(optimizer)")
     from . import variadic
     variadic.report(rep, "Q8", [u for u in common.compiler_units() if u.startswith("of_") or u in ("usedef.c", "flog.c", "dflow.c", "optfoam.c", "inlutil.c", "loops.c")], floor=200, what="in the optimizer")
     rep.assumptions += ["allocation and errno are not effects",
